@@ -40,14 +40,16 @@ class _Violation(Exception):
 
 def _fail_record(sc, case, f):
     return {"subcheck": sc.name, "case": jsonable(case), "what": f.what, "bucket": f.bucket,
-            "expected": jsonable(f.expected), "observed": jsonable(f.observed)}
+            "expected": jsonable(f.expected), "observed": jsonable(f.observed), "history": None}
 
 
 def _run_hypothesis(sc, n, seed, matchers, shrink=True):
     import hypothesis
     from hypothesis import given, settings, HealthCheck, Phase
+    import collections
     stats = Stats()
-    state = {"bucket": None, "last": None, "others": {}}
+    state = {"bucket": None, "last": None, "others": {}, "first": None, "history": None}
+    recent = collections.deque(maxlen=40)
 
     def body(case):
         for m in matchers:
@@ -63,6 +65,10 @@ def _run_hypothesis(sc, n, seed, matchers, shrink=True):
         if f is not None:
             if state["bucket"] is None:
                 state["bucket"] = f.bucket
+                state["first"] = (case, f)
+                state["history"] = [jsonable(c) for c in recent]
+        recent.append(case)
+        if f is not None:
             if f.bucket == state["bucket"]:
                 state["last"] = (case, f)
                 raise _Violation(f.bucket)
@@ -92,10 +98,18 @@ def _run_hypothesis(sc, n, seed, matchers, shrink=True):
     except HarnessError as e:
         harness = str(e)
     except hypothesis.errors.HypothesisException as e:
-        # Flaky / Unsatisfiable / FailedHealthCheck: generator or determinism problem in the harness
-        if state["last"] is not None and isinstance(e, hypothesis.errors.Flaky):
-            harness = "flaky: %s" % e
+        if state["first"] is not None and isinstance(e, hypothesis.errors.Flaky):
+            # The relation failed on a generated case and held when Hypothesis re-ran the same case: the harness
+            # and its oracles are deterministic functions of the case, so the code under test gave a result that
+            # depends on earlier calls (hidden state).  The wrong result was observed; report it with the calls
+            # that preceded it so that the replay can re-create the history.
+            case, f = state["first"]
+            rec = _fail_record(sc, case, f)
+            rec["what"] = f.what + " [result depends on earlier calls: holds when the case is run alone]"
+            rec["history"] = state["history"]
+            failures.append(rec)
         else:
+            # Unsatisfiable / FailedHealthCheck: generator problem in the harness
             harness = "hypothesis: %s: %s" % (type(e).__name__, e)
     finally:
         core._IN_HYPOTHESIS[0] = False
@@ -208,6 +222,11 @@ def replay(prop, path):
     with tempfile.TemporaryDirectory(prefix="gvp_") as td:
         os.chdir(td)
         try:
+            for h in rec.get("history") or []:
+                try:
+                    sc.run_case(h)
+                except Discard:
+                    pass
             try:
                 f = sc.run_case(rec["case"])
             except Discard:
@@ -277,6 +296,11 @@ def run(prop, tier, seed):
         if skip:
             continue
         corpus_n += 1
+        for h in rec.get("history") or []:
+            try:
+                sc.run_case(h)
+            except Discard:
+                pass
         try:
             f = sc.run_case(rec["case"])
         except Discard:
